@@ -536,9 +536,9 @@ pub(crate) struct DrawState {
     pub(crate) alignment: MultiProgressAlignment,
     /// The number of blank lines the last draw put above the bars (bottom alignment only)
     pub(crate) padding: VisualLines,
-    /// The last draw stopped at the terminal height and left the cursor behind the text of the
-    /// last bar line it painted instead of at the right edge
-    unfinished_row: bool,
+    /// The last draw left the cursor parked on the last row of the region it painted (at the
+    /// right edge, or behind the text of the last bar line when it stopped at the terminal height)
+    parked: bool,
 }
 
 impl DrawState {
@@ -572,9 +572,13 @@ impl DrawState {
             term.move_cursor_up(n.saturating_sub(1))?;
         }
 
-        if self.unfinished_row && *bar_count == VisualLines::default() {
+        let nothing_to_replace = *bar_count == VisualLines::default();
+        if self.parked && nothing_to_replace && !self.lines.is_empty() {
             // The rows of the last draw all stay on screen as static text (nothing was cleared
-            // above) and the cursor still sits behind the last of them: start on a fresh row
+            // above) and the cursor still sits on the last of them: start on a fresh row. Text
+            // would wrap there by itself, but not when the row was cut short at the terminal
+            // height, and an empty first line would share the row with the static text and be
+            // counted as a row of its own.
             term.write_line("")?;
         }
 
@@ -604,7 +608,6 @@ impl DrawState {
         // full height exceeds the terminal height.
         let mut real_height = VisualLines::default();
         let mut ends_with_text = false;
-        let mut unfinished_row = false;
 
         for (idx, line) in self.lines.iter().enumerate() {
             let line_height = line.wrapped_height(term_width);
@@ -613,8 +616,6 @@ impl DrawState {
             if matches!(line, LineType::Bar(_)) {
                 // Stop here if printing this bar would exceed the terminal height
                 if real_height.saturating_add(line_height) > term.height().into() {
-                    // The bar line painted before this one, if any, got no filler
-                    unfinished_row = real_height != VisualLines::default();
                     break;
                 }
 
@@ -666,7 +667,9 @@ impl DrawState {
         term.flush()?;
         *bar_count = real_height + shift;
         self.padding = shift;
-        self.unfinished_row = unfinished_row;
+        // (a draw of nothing over nothing has not moved the cursor)
+        self.parked = *bar_count != VisualLines::default()
+            || (self.parked && nothing_to_replace && self.lines.is_empty());
 
         Ok(())
     }
